@@ -99,6 +99,10 @@ def registry_of(system, rec=None) -> dict:
         except Exception:
             src = None
         d['docsource'] = seen.get(id(src)) if src is not None else None
+        # the page object the object's docstring linker HOLDS (recorded when the linker was created)
+        lk = getattr(o, '_linker', None)
+        po = getattr(lk, '_page_object', None) if lk is not None else None
+        d['linker_page'] = seen.get(id(po)) if po is not None else None
         for key, kind in (('xrefs', 'doc'), ('sumxrefs', 'sum'), ('annxrefs', 'ann')):
             lst = []
             for t in (rec or {}).get(kind, {}).get(id(o), []):
